@@ -130,6 +130,8 @@ class Facts:
         self.adts = {a["path"]: a for a in raw["adts"]}
         self.impls = raw["impls"]
         self.unsafe = raw["unsafe"]
+        from . import cache as _cache
+        _cache.facts_hash(self)  # content hash of this extraction (without the run's nonce), before any rule touches the data
         self.items = raw["items"]
         self._fn_objs = {}
 
